@@ -21,6 +21,8 @@ pub struct Built {
     pub values: HashMap<String, Value>,
     /// the fragments of the multi-datagram part (for C08), index into batches
     pub multi: Option<usize>,
+    /// false: even the smallest concretisation of this shape exceeds the size of a datagram a real server sends (D17)
+    pub fits: bool,
 }
 
 fn items_of(v: &Value) -> &[Value] { v.as_array().map(|a| a.as_slice()).unwrap_or(&[]) }
@@ -90,8 +92,9 @@ pub fn build(rng: &mut StdRng, l: &Value) -> Built {
             _ => {}
         }
     }
-    let b = build_raw(rng, &l2);
+    let mut b = build_raw(rng, &l2);
     set_strclass(&outer);
+    b.fits = b.tcp || !b.batches.iter().flatten().any(|d| d.len() > limit);
     b
 }
 
@@ -110,6 +113,7 @@ fn build_raw(rng: &mut StdRng, l: &Value) -> Built {
                 unordered,
                 values: enc.values,
                 multi: None,
+                fits: true,
             }
         }
         "gs1" => {
@@ -150,6 +154,7 @@ fn build_raw(rng: &mut StdRng, l: &Value) -> Built {
                 unordered,
                 values: enc.values,
                 multi: Some(0),
+                fits: true,
             }
         }
         "gs3" => {
@@ -177,6 +182,7 @@ fn build_raw(rng: &mut StdRng, l: &Value) -> Built {
                     v
                 },
                 multi: Some(1),
+                fits: true,
             }
         }
         "jc2m" => {
@@ -193,6 +199,7 @@ fn build_raw(rng: &mut StdRng, l: &Value) -> Built {
                     v
                 },
                 multi: None,
+                fits: true,
             }
         }
         "unreal2" => {
@@ -210,6 +217,7 @@ fn build_raw(rng: &mut StdRng, l: &Value) -> Built {
                     unordered,
                     values: enc.values,
                     multi: None,
+                    fits: true,
                 };
             }
             let secs = &lay["sections"];
@@ -255,6 +263,7 @@ fn build_raw(rng: &mut StdRng, l: &Value) -> Built {
                 unordered,
                 values: enc.values,
                 multi: Some(1),
+                fits: true,
             }
         }
         "java" => {
@@ -271,6 +280,7 @@ fn build_raw(rng: &mut StdRng, l: &Value) -> Built {
                 unordered,
                 values: enc.values,
                 multi: None,
+                fits: true,
             }
         }
         "legacy16" | "legacy14" | "legacyb18" => {
@@ -290,6 +300,7 @@ fn build_raw(rng: &mut StdRng, l: &Value) -> Built {
                 unordered,
                 values: enc.values,
                 multi: None,
+                fits: true,
             }
         }
         e => panic!("no builder for entry {e}"),
@@ -406,6 +417,11 @@ pub fn replay_layouts(layouts: &LayoutSet, protos: &[&str], seed: u64, reps: usi
             }
             let b = build(&mut rng, l);
             set_strclass("");
+            if !b.fits {
+                // not a reply a server can send (e.g. 64 players in one GameSpy 3 packet)
+                *rep.extra.entry("skipped_oversize".into()).or_insert(json!(0)) = json!(rep.extra["skipped_oversize"].as_u64().unwrap_or(0) + 1);
+                continue;
+            }
             let script = script_of(&b);
             let rec = call(&entry, &script, 27015, 0, None);
             rep.evaluations += 1;
